@@ -1,7 +1,18 @@
 from tools.driver import Unit
 UNITS = [
   Unit("enc_template", ["C15"], "lib/vorbisenc.c", enforce="get_setup_template", harness="h_enc_template.c", entry="h_enc_template",
-       unwindset=["get_setup_template.0:19", "get_setup_template.1:14"], reach=4, timeout=1500, shards=8, objbits=13,
+       unwindset=["get_setup_template.0:14", "get_setup_template.1:19"], reach=4, timeout=1500, shards=8, objbits=13,
        assumed=["the real static template tables of vorbisenc.c / modes/*.h are the data (17 templates, <= 12 mappings each): loops fully unwound with unwinding assertions"],
        note="template look-up for all (channels, rate, request incl. NaN/inf/negative, quality-or-bitrate): no template, or a base setting whose integer part is and is+1 index inside every per-quality table"),
+]
+UNITS += [
+  Unit("enc_ctl", ["C15", "C14"], "lib/vorbisenc.c", enforce="vorbis_encode_ctl", rec=True, harness="h_enc_ctl.c", entry="h_enc_ctl",
+       replace=["get_setup_template", "vorbis_encode_setup_setting"], reach=5, timeout=900, objbits=12,
+       assumed=["API precondition: arg is a valid object for the requests that dereference it without a NULL test (deprecated RATEMANAGE_GET, LOWPASS_*, IBLOCK_*, COUPLING_*); vi->codec_setup valid (an initialised vorbis_info)",
+                "vorbis_encode_setup_setting by contract (its precondition - base setting inside the template's tables - is an obligation at the call site)"],
+       note="control interface: documented return codes for every request number; SET after set_in_stone refused with nothing changed; unknown request OV_EIMPL; RATEMANAGE2_SET lets through exactly min<=avg<=max, damping>0, reservoir>=0, 0<=bias<=1 and stores them; refused requests change no rate setting; LOWPASS/IBLOCK clamps; GET changes nothing; COUPLING_SET hands setup_setting a base setting inside the template's tables"),
+]
+UNITS += [
+  Unit("enc_ctl_null", ["C15"], "lib/vorbisenc.c", enforce=None, harness="h_enc_ctl.c", entry="h_enc_ctl_null", defines=["H_NULL"], unwind=2,
+       note="vorbis_encode_ctl(NULL, any request, any arg) == OV_EINVAL (loop-free harness over symbolic arguments)"),
 ]
